@@ -64,6 +64,11 @@ def view(x, cls):
     return x.view(cls)
 
 
+def view_private(x, cls):
+    """Same as view(), but on a private copy with its own dtype object (neutralised trigger)."""
+    return numpy.array(x, dtype=numpy.dtype(x.dtype.descr)).view(cls)
+
+
 def setitem(x, where, what):
     x[where] = what
     return None
@@ -114,7 +119,12 @@ def decode(x, env: Env):
         return {k: decode(v, env) for k, v in x.items()}
     v = x.get("v")
     if t == "p":
-        return env.pool[v]
+        r = env.pool[v]
+        if isinstance(r, _Raised):
+            raise DependencyFailed(f"pool slot {v} raised {type(r.exc).__name__}")
+        if getattr(r, "_vecsim_skipped", False):
+            raise DependencyFailed(f"pool slot {v} skipped")
+        return r
     if t == "r":
         r = env.results[v]
         if isinstance(r, _Raised):
@@ -148,6 +158,11 @@ def decode(x, env: Env):
         return numpy.dtype(_dtype(v))
     if t == "dtlist":
         return _dtype(v)
+    if t == "dtcopy":
+        return numpy.dtype(decode(v, env).descr)
+    if t == "rawcopy":
+        x = decode(v, env)
+        return numpy.array(x, dtype=numpy.dtype(x.dtype.descr))
     if t == "path":
         return resolve_path(v)
     if t == "sym":
@@ -204,8 +219,7 @@ def written_refs(op):
     a = op.get("a", ())
     for w in op.get("w", ()):
         x = a[w] if isinstance(w, int) else op.get("k", {}).get(w)
-        if isinstance(x, dict) and x.get("$") in ("p", "m", "r"):
-            out.append((x["$"], x["v"]))
+        refs_of(x, out)
     return out
 
 
